@@ -156,7 +156,7 @@ func refCacValid(addr, payload []byte) (bool, string) {
 // ---------------------------------------------------------------- hash table for the model
 
 // hashTab collects, for every payload the implementation may feed to the pooled hasher, the
-// preimage the hasher actually digests (span, first refCap data bytes) and its reference hash.
+// preimage the hasher digests (span, data) and its reference hash.
 type hashTab struct {
 	seen map[string]bool
 	ents []string
@@ -165,13 +165,11 @@ type hashTab struct {
 func newTab() *hashTab { return &hashTab{seen: map[string]bool{}} }
 
 func (t *hashTab) add(payload []byte) {
-	if len(payload) < 8 {
+	// cac.Valid and the (repaired) pyramid check hash a payload only within these bounds
+	if len(payload) < 8 || len(payload) > refCap+8 {
 		return
 	}
 	d := payload[8:]
-	if len(d) > refCap {
-		d = d[:refCap]
-	}
 	pre := append(append([]byte{}, payload[:8]...), d...)
 	k := string(keccak(pre))
 	if t.seen[k] {
